@@ -151,7 +151,8 @@ def footnotes(md: "Markdown") -> None:
         parse_ref_footnote,
         before="ref_link",
     )
-    md.after_render_hooks.append(md_footnotes_hook)
+    if md_footnotes_hook not in md.after_render_hooks:
+        md.after_render_hooks.append(md_footnotes_hook)
 
     if md.renderer and md.renderer.NAME == "html":
         md.renderer.register("footnote_ref", render_footnote_ref)
